@@ -67,7 +67,7 @@ theorem syncWorker_kw (s : State) (q : ScqId) (w : WId) :
       obtain ⟨f1, f2, f3⟩ := flags_of_not_inSync (hw.ok wk hm) hi
       intro wk' hwk'
       rw [worker?_setWorker] at hwk'
-      simp only [hq, hw', and_self, if_true, removeCleanup_workers] at hwk'
+      simp only [hq, hw', and_self, if_true] at hwk'
       have : (s.removeCleanup (.worker q w)).worker? q w = some wk := hwk
       rw [this] at hwk'; simp only [Option.map_some, Option.some.injEq] at hwk'
       subst hwk'; exact ⟨rfl, f1, f2, f3⟩
